@@ -1,13 +1,17 @@
 (* modelrun: evaluates the extracted Coq models on case lines (stdin) and
    prints one canonical result line per case. Numbers travel as hex. *)
-open Model
+(* Model is NOT opened: its extracted [string]/[ascii] types must not shadow OCaml's. *)
+module M = Model
+type n = M.n
+type positive = M.positive
+type nat = M.nat
 
 let rec pos_of_hex_bits (bits : bool list) : positive =
   (* bits: least significant first, last one is the leading 1 *)
   match bits with
-  | [] -> XH
-  | [_] -> XH
-  | b :: r -> if b then XI (pos_of_hex_bits r) else XO (pos_of_hex_bits r)
+  | [] -> M.XH
+  | [_] -> M.XH
+  | b :: r -> if b then M.XI (pos_of_hex_bits r) else M.XO (pos_of_hex_bits r)
 
 let bits_of_hex (s : string) : bool list =
   (* least significant bit first, leading zeros removed *)
@@ -25,14 +29,14 @@ let bits_of_hex (s : string) : bool list =
 
 let n_of_hex (s : string) : n =
   match bits_of_hex s with
-  | [] -> N0
-  | bits -> Npos (pos_of_hex_bits bits)
+  | [] -> M.N0
+  | bits -> M.Npos (pos_of_hex_bits bits)
 
 let hex_of_n (x : n) : string =
   match x with
-  | N0 -> "0"
-  | Npos p ->
-    let rec bits p = match p with XH -> [true] | XO q -> false :: bits q | XI q -> true :: bits q in
+  | M.N0 -> "0"
+  | M.Npos p ->
+    let rec bits p = match p with M.XH -> [true] | M.XO q -> false :: bits q | M.XI q -> true :: bits q in
     let b = bits p in (* lsb first *)
     let rec chunks l = match l with
       | [] -> []
@@ -45,7 +49,7 @@ let hex_of_n (x : n) : string =
     String.concat "" (List.rev_map (fun v -> String.make 1 "0123456789abcdef".[v]) ds)
 
 let n_of_int (i : int) : n = n_of_hex (Printf.sprintf "%x" i)
-let rec nat_of_int (i : int) : nat = if i <= 0 then O else S (nat_of_int (i - 1))
+let rec nat_of_int (i : int) : nat = if i <= 0 then M.O else M.S (nat_of_int (i - 1))
 
 let split_ws (s : string) : string list =
   List.filter (fun x -> x <> "") (String.split_on_char ' ' s)
@@ -58,10 +62,77 @@ let c19 (args : string list) : string =
   | m :: ops ->
     let mat = List.init 16 (fun i -> m.[i] = '1') in
     let ops' = List.map (fun o -> (o.[0] = 'a', n_of_int (Char.code o.[1] - 48))) ops in
-    let ((s, ts), gs) = c19_run_case mat ops' in
+    let ((s, ts), gs) = M.c19_run_case mat ops' in
     if List.exists (fun g -> g = None) gs then "PANIC" else
     Printf.sprintf "s=%s t=%s g=%s" (join_n "," s) (join_n "," ts)
       (String.concat "," (List.map (function Some v -> hex_of_n v | None -> "?") gs))
+  | [] -> "BADCASE"
+
+(* ------------------------------------------------------------ helpers *)
+let coq_ascii_of (c : char) : M.ascii =
+  let v = Char.code c in
+  let b i = (v lsr i) land 1 = 1 in
+  M.Ascii (b 0, b 1, b 2, b 3, b 4, b 5, b 6, b 7)
+let char_of_coq (a : M.ascii) : char =
+  match a with M.Ascii (b0, b1, b2, b3, b4, b5, b6, b7) ->
+    let v l = List.fold_right (fun b acc -> acc * 2 + (if b then 1 else 0)) l 0 in
+    Char.chr (v [b0; b1; b2; b3; b4; b5; b6; b7])
+let coq_string_of (s : string) : M.string =
+  let r = ref M.EmptyString in
+  for i = String.length s - 1 downto 0 do r := M.String (coq_ascii_of s.[i], !r) done; !r
+let rec string_of_coq (l : M.string) : string =
+  match l with M.EmptyString -> "" | M.String (a, r) -> String.make 1 (char_of_coq a) ^ string_of_coq r
+
+let bytes_of_hex (s : string) : n list =
+  if s = "-" then [] else
+  List.init (String.length s / 2) (fun i -> n_of_hex (String.sub s (2 * i) 2))
+
+let hex2_of_n (x : n) : string = let h = hex_of_n x in if String.length h = 1 then "0" ^ h else h
+let hex_of_bytes (l : n list) : string = if l = [] then "-" else String.concat "" (List.map hex2_of_n l)
+
+let starts_with p s = String.length s >= String.length p && String.sub s 0 (String.length p) = p
+let after p s = String.sub s (String.length p) (String.length s - String.length p)
+
+(* ------------------------------------------------------------ C11 *)
+let derr_str (e : M.derr) : string =
+  match e with
+  | M.StreamExpected o -> "E:SE:" ^ hex_of_n o
+  | M.LimitReached o -> "E:LR:" ^ hex_of_n o
+  | M.DecodeStringFailed o -> "E:DS:" ^ hex_of_n o
+  | M.KindUnknown (ty, o, w) -> Printf.sprintf "E:UK:%s:%s:%s" (string_of_coq ty) (hex_of_n o) (hex_of_n w)
+
+let resp_str (r : M.resp) : string =
+  match r with
+  | M.VWord w -> "W" ^ hex_of_n w
+  | M.VWords ws -> "WS" ^ join_n "," ws
+  | M.VStr s -> "S" ^ hex_of_bytes s
+  | M.VUnit -> "U"
+  | M.VNum x -> "N" ^ hex_of_n x
+  | M.VBool b -> if b then "B1" else "B0"
+  | M.VErr e -> derr_str e
+
+let creq_of (t : string) : M.creq =
+  if t = "w" || t = "b32" || t = "id" || t = "ei" then M.CWord
+  else if t = "s" then M.CString
+  else if t = "b64" then M.CBit64
+  else if t = "cl" then M.CClear
+  else if t = "o" then M.COffset
+  else if t = "hl" then M.CHasLimit
+  else if t = "lr" then M.CLimitReached
+  else if starts_with "ws" t then M.CWords (nat_of_int (int_of_string ("0x" ^ after "ws" t)))
+  else if starts_with "sl" t then M.CSetLimit (n_of_hex (after "sl" t))
+  else if starts_with "t:" t then M.CTyped (coq_string_of (after "t:" t))
+  else failwith ("bad request " ^ t)
+
+let c11 (args : string list) : string =
+  match args with
+  | b :: reqs ->
+    (match M.c11_run_case (bytes_of_hex b) (List.map creq_of reqs) with
+     | None -> "BADCASE"
+     | Some (rs, d) ->
+       let lr = match d.M.lim with Some M.N0 -> 1 | _ -> 0 in
+       let hl = match d.M.lim with Some _ -> 1 | None -> 0 in
+       String.concat " " (List.map resp_str rs @ [Printf.sprintf "| off=%s hl=%d lr=%d" (hex_of_n d.M.off) hl lr]))
   | [] -> "BADCASE"
 
 let c19long (args : string list) : string =
@@ -70,11 +141,11 @@ let c19long (args : string list) : string =
     let n = int_of_string ("0x" ^ nh) in
     let seen = Hashtbl.create 100000 in
     let first_dup = ref (-1) in
-    let k = ref O in
+    let k = ref M.O in
     for i = 0 to n - 1 do
-      let t = hex_of_n (tok_of_len !k) in
+      let t = hex_of_n (M.tok_of_len !k) in
       if Hashtbl.mem seen t then (if !first_dup < 0 then first_dup := i) else Hashtbl.add seen t ();
-      k := S !k
+      k := M.S !k
     done;
     Printf.sprintf "long distinct=%x first_dup=%s bad_lookup=%s" (Hashtbl.length seen)
       (if !first_dup < 0 then "-" else Printf.sprintf "%x" !first_dup)
@@ -88,6 +159,7 @@ let () =
       let out = match split_ws line with
         | "c19" :: r -> c19 r
         | "c19long" :: r -> c19long r
+        | "c11" :: r -> c11 r
         | _ -> "BADCASE" in
       print_string out; print_char '\n'
     done
